@@ -1582,7 +1582,13 @@ impl IdmServerProxyWriteTransaction<'_> {
         let parent_session_revoked = account_entry
             .get_ava_as_session_map(Attribute::UserAuthTokenSession)
             .and_then(|sessions| sessions.get(&code_xchg.session_id))
-            .map(|session| matches!(session.state, SessionState::RevokedAt(_)))
+            .map(|session| match &session.state {
+                SessionState::RevokedAt(_) => true,
+                // The session plugin only revokes an expired session on the next write to
+                // the account, an expired session is no better than a revoked one.
+                SessionState::ExpiresAt(exp) => *exp <= OffsetDateTime::UNIX_EPOCH + ct,
+                SessionState::NeverExpires => false,
+            })
             .unwrap_or(false);
 
         if parent_session_revoked {
